@@ -154,6 +154,7 @@ private:
 		asl_verif_point(ASL_VP_THREAD_END, t);
 #endif
 		t->_threadFinished = true;
+		t->finish(); // nothing may touch t after this: a self-deleting thread is gone
 		return 0;
 	}
 #ifdef ASL_EXP_THREADING
@@ -213,6 +214,9 @@ public:
 	}
 	/** The thread procedure. Reimplement this function to create new threads */
 	virtual void run()
+	{}
+	/** Called in the thread after run() has returned and finished() is set; a thread object that owns itself can `delete this` here */
+	virtual void finish()
 	{}
 	/** Starts a new thread by calling run() in parallel */
 	void start()
